@@ -69,7 +69,7 @@ def make(kind, prop, quick, thorough, long_every=30):
             suite_stage(ctx, kind)
         long = ctx.tier == "thorough" and idx % long_every == 0
         # scale and hub histories at fixed case numbers (what a run reaches must not hang on one draw)
-        big = "scale" if idx == 1 or (ctx.tier == "thorough" and idx % 400 == 7) else "hub" if idx == 2 or (ctx.tier == "thorough" and idx % 400 == 9) else False
+        big = "scale" if idx == 1 or (ctx.tier == "thorough" and idx % 400 == 7) else "hub" if idx in (2, 5) or (ctx.tier == "thorough" and idx % 400 == 9) else False
         # tuple labels (grid coordinates): "any mutually comparable hashable labels" for the plain Hypergraph; the other three
         # containers read a pair of tuples as (source, target) by design, so this universe is for H only
         uni = "tuple" if kind == "H" and not big and idx % 25 == 4 else None
@@ -87,6 +87,7 @@ def make(kind, prop, quick, thorough, long_every=30):
         script = None
         if big == "hub" and not (ctx.tier == "thorough" and idx % 800 == 9):  # scripted hub history (the random hub history stays in the thorough tier)
             cfg.use_constructor = False
+            cfg.large_hub = idx == 5 or idx % 800 == 409  # beyond 256 hyperedges per node and role
             script = history.hub_script(rng, cfg)
             ctx.event("scripted-hub-history")
         try:
